@@ -497,8 +497,11 @@ def judge_case(res, cid, script, meta, steps, stats):
     for st in steps:
         if st.exc is not None:
             t = st.cmd.split()
-            if st.exc[0] == "hang" or st.exc[0].startswith("crash") or st.exc[0].startswith("other"):
-                viol(("no-return:" if st.exc[0] == "hang" else "crash:") + t[0] + ":" + fam, "%s -> %s" % (st.cmd[:80], st.exc))
+            if st.exc[0] == "hang":      # running time is not part of the statement: the case ends, counted
+                stats["cases_cut_short_by_a_slow_call"] = stats.get("cases_cut_short_by_a_slow_call", 0) + 1
+                return
+            if st.exc[0].startswith("crash") or st.exc[0].startswith("other"):
+                viol("crash:" + t[0] + ":" + fam, "%s -> %s" % (st.cmd[:80], st.exc))
                 return
             if t[0] in ("diff", "evalb", "load", "loadraw", "make", "trans", "copy"):
                 viol("unexpected-exception:%s:%s" % (t[0], fam), "%s -> %s" % (st.cmd[:80], st.exc))
